@@ -164,7 +164,7 @@ P("C02", S_CELLS + Q_MISC + S_CONF + PC_GLUE[:1] + PC_ADJUST + PC_SPARSE,
 P("C03", Q_INPUT + Q_ADD + Q_MISC[2:] + S_INPUTS,
   "Input status truthfulness on the real InputQueue/SyncLayer: Confirmed <=> the frame's real input is stored, and the value is that input; Predicted => not yet received and value = predictor(newest received) (default if none), for PredictRepeatLast and PredictDefault, from any queue state; Disconnected <=> the player is disconnected as of an earlier frame, with the default input; the boundary frame (last real input) stays Confirmed.",
   "confirmed_frame() monotonicity and finality across whole sessions rest on the component contracts (see C01 note).")
-P("C05", U_LOSTACK + U_STREAM_Q + U_HANDSHAKE + U_STREAM_T,
+P("C05", U_LOSTACK + U_STREAM_Q + U_HANDSHAKE + U_TIMERS[:3] + U_STREAM_T,
   "Lost-ack lemma on the real on_input: a retransmission whose base frame the receiver has already pruned (1/3/5 lost acks for prediction window 0/1/2) is answered with an ack for the receiver's newest frame, so the sender's base moves forward; acks release exactly the acknowledged prefix and leave the pending outputs starting right after the new base; duplicates/overlaps are skipped without double delivery; handshake: one inductive step from any Synchronizing state on any SyncReply, retry timer.",
   "Bounded liveness over multi-packet fault schedules with two live endpoints is not run (cost); the lemma plus the ack/stream contracts are its inductive core.")
 P("C07", U_TIMERS + S_MIN + S_INPUTS + PC_DISC + PE_TWO,
